@@ -72,8 +72,14 @@ DN       == [t |-> "n", k |-> "", i |-> 0]
 Opd(d)   == IF d.t = "v" THEN Val(d.k, d.i) ELSE IF d.t = "c" THEN Consts[d.i] ELSE NoOperand
 
 Pick(a, b, c, n) == ((Seed * 31 + a * 7 + b * 13 + c * 5) % n) + 1
-ValIdx(k, salt)  == IF Tier = "t" THEN {1, 2, 3, 4} ELSE {Pick(KIdx(k), salt, 1, NVals)}
-ValIdx2(k, salt) == IF Tier = "t" THEN {1, 2, 3, 4} ELSE {Pick(KIdx(k), salt, 2, NVals)}
+\* value classes taken per operand position (salt).  Tier "t": two variables take the boundary classes 3, max, min/max-1,
+\* -1/half on the left and 3, max, min/max-1, 0 on the right; a variable next to a constant takes every class on the left
+\* of an expression; tier "q" takes one seeded class per position
+ValIdx(k, salt)  == IF Tier = "t" THEN (CASE salt = 1 -> {1, 2, 3, 4} [] salt = 3 -> 1..NVals [] salt = 4 -> {1, 2, 3, 4}
+                                          [] salt = 7 -> {1, 2, 3, 4, 7} [] salt = 8 -> {1, 2} [] OTHER -> 1..NVals)
+                    ELSE {Pick(KIdx(k), salt, 1, NVals)}
+ValIdx2(k, salt) == IF Tier = "t" THEN (CASE salt = 2 -> {1, 2, 3, 7} [] salt = 9 -> {1, 3, 7} [] OTHER -> {1, 2, 3, 4})
+                    ELSE {Pick(KIdx(k), salt, 2, NVals)}
 VarDs(salt)  == UNION { { DV(k, i) : i \in ValIdx(k, salt) } : k \in Kinds }
 VarDs2(salt) == UNION { { DV(k, i) : i \in ValIdx2(k, salt) } : k \in Kinds }
 VarDs3(salt) == UNION { { DV(k, i) : i \in ValIdx(k, salt) \cup ValIdx2(k, salt) \cup {2, 3} } : k \in Kinds }
@@ -88,10 +94,13 @@ I(form, op, l, r) == [form |-> form, op |-> op, l |-> l, r |-> r]
 AsgOps == {"+", "-", "*", "/"}
 BinVV == { x \in { I("bin", op, l, r) : op \in ArithOps, l \in VarDs(1), r \in VarDs2(2) } : OpTaken(x.op, x.l.k, x.r.k) }
 BinVC == { I("bin", op, l, r) : op \in ArithOps, l \in VarDs(3), r \in ConDs }
-BinCV == { I("bin", op, l, r) : op \in ArithOps, l \in ConDs, r \in VarDs(4) }
+\* tier "q" halves the constant-on-the-left cells and alternates the two assignment forms (seeded)
+Half(a, b) == Tier = "t" \/ (a + b + Seed) % 2 = 0
+BinCV == { x \in { I("bin", op, l, r) : op \in ArithOps, l \in ConDs, r \in VarDs(4) } : Half(x.l.i, KIdx(x.r.k)) }
 NegC  == { I("neg", "-", l, DN) : l \in VarDs3(5) }
 IncC  == { I("inc", op, l, DN) : op \in {"+", "-"}, l \in VarDs3(6) }
-AsgVC(form) == { I(form, op, l, r) : op \in AsgOps, l \in VarDs(7), r \in ConDs }
+AsgVC(form) == { x \in { I(form, op, l, r) : op \in AsgOps, l \in VarDs(7), r \in ConDs } :
+                 Half(x.r.i + (IF form = "cas" THEN 1 ELSE 0), KIdx(x.l.k)) }
 AsgVV(form) == { x \in { I(form, op, l, r) : op \in AsgOps, l \in VarDs(8), r \in VarDs2(9) } : PairTaken(x.l.k, x.r.k) }
 \* the increment forms written out with the constant 1, so that the three forms of the statement are all executed
 AsgOne(form) == { I(form, x.op, x.l, DC(1)) : x \in IncC }
@@ -103,19 +112,25 @@ Build(x) == [form |-> x.form, op |-> x.op, l |-> Opd(x.l), r |-> Opd(x.r)]
 NoCell   == [form |-> "none", op |-> "", l |-> NoOperand, r |-> NoOperand]
 
 \* ------------------------------------------------------------------ semantics of a cell (in one type-checking mode)
-Results(c, mode) ==
-  CASE c.form = "bin" -> BinR(c.l, c.r, c.op, mode)
-    [] c.form = "neg" -> {NegV(c.l.v)}
-    [] c.form = "inc" -> AsgR(c.l, IF Impl = "asis" THEN OneTyped ELSE One, c.op, mode)
-    [] OTHER          -> AsgR(c.l, c.r, c.op, mode)          \* cas, asg
-Outcome(c, mode) == LET rs == Results(c, mode) IN [wf |-> InDomain(rs), o |-> IF InDomain(rs) THEN OutOf(rs) ELSE {}]
+\* the expression the statement evaluates: x++ is x + 1, x op= R is x op R (LANGUAGE.md "identical function", "the same as")
+Expr(c, mode) ==
+  CASE c.form = "neg" -> {NegV(c.l.v)}
+    [] c.form = "inc" -> BinR(c.l, IF Impl = "asis" THEN OneTyped ELSE One, c.op, mode)
+    [] OTHER          -> BinR(c.l, c.r, c.op, mode)           \* bin, cas, asg
+\* ... and what the statement does with its value: bin/neg define a new variable, the others assign to x
+Finish(c, mode, rs) ==
+  LET fs == IF c.form \in {"bin", "neg"} THEN rs ELSE { Store(c.l.v.k, b, mode) : b \in rs }
+  IN  [wf |-> InDomain(fs), o |-> IF InDomain(fs) THEN OutOf(fs) ELSE {}]
+Outcome(c, mode) == Finish(c, mode, Expr(c, mode))
 
 NoOut == [m \in Modes |-> [wf |-> FALSE, o |-> {}]]
 Init == pc = "pre" /\ ix \in Index /\ cell = NoCell /\ out = NoOut
 Exec == /\ pc = "pre"                      \* the program is run once under each --types mode
         /\ pc' = "post"
         /\ cell' = Build(ix)
-        /\ out' = [m \in Modes |-> Outcome(cell', m)]
+        /\ LET lenient == Expr(cell', "dynamic")              \* expressions are evaluated alike in dynamic and relaxed mode
+               strict  == Expr(cell', "strict")
+           IN  out' = [m \in Modes |-> Finish(cell', m, IF m = "strict" THEN strict ELSE lenient)]
         /\ UNCHANGED ix
 Next == Exec
 Spec == Init /\ [][Next]_vars
